@@ -389,4 +389,96 @@ theorem attrsOk_find {s : Schema} {kw : List (Nat × Dflt)} (h : attrsOk s kw = 
   | none => rw [hf] at this; simp at this
   | some d => rw [hf] at this; rw [dflt_beq_eq this]
 
+/-! ### positional binding and forwarding -/
+
+theorem natBoolList_beq_eq {a b : List (Nat × Bool)} (h : natBoolListBeq a b = true) : a = b := by
+  induction a generalizing b with
+  | nil => cases b <;> simp [natBoolListBeq] at h ⊢
+  | cons x xs ih =>
+    cases b with
+    | nil => simp [natBoolListBeq] at h
+    | cons y ys =>
+      simp only [natBoolListBeq, Bool.and_eq_true, beq_iff_eq] at h
+      rw [ih h.2, Prod.ext h.1.1 h.1.2]
+
+theorem findPos_of_nodup {α} {bound : List (Nat × Option α)} (hnd : (bound.map Prod.fst).Nodup)
+    {p : Nat × Option α} (hp : p ∈ bound) : findPos p.1 bound = some p.2 := by
+  induction bound with
+  | nil => cases hp
+  | cons q qs ih =>
+    simp only [List.map, List.nodup_cons] at hnd
+    simp only [findPos]
+    rcases List.mem_cons.mp hp with rfl | hp'
+    · simp
+    · have : q.1 ≠ p.1 := by
+        intro h
+        exact hnd.1 (h ▸ List.mem_map_of_mem hp')
+      simp only [beq_iff_eq, this, if_false]
+      exact ih hnd.2 hp'
+
+theorem fwdValues_named {α} (bound : List (Nat × Option α)) (extra : List (Option α))
+    (l : List (Nat × Option α)) (tail : List (Nat × Bool))
+    (h : ∀ p ∈ l, findPos p.1 bound = some p.2) :
+    fwdValues bound extra (l.map (fun p => (p.1, false)) ++ tail) =
+      (fwdValues bound extra tail).map (fun r => l.map Prod.snd ++ r) := by
+  induction l with
+  | nil => simp
+  | cons q qs ih =>
+    have hq := h q List.mem_cons_self
+    have ih' := ih (fun p hp => h p (List.mem_cons_of_mem _ hp))
+    simp only [List.map, List.cons_append, fwdValues, hq, ih']
+    cases fwdValues bound extra tail <;> simp
+
+/-- binding positional parameters keeps the parameter names and, as values, the supplied arguments
+followed by `None` for every omitted (optional) parameter; what is left over goes to `*vararg` -/
+theorem bindPos_spec {α} (pos : List (Nat × Dflt)) (args : List (Option α))
+    (bound : List (Nat × Option α)) (extra : List (Option α))
+    (h : bindPos pos args = some (bound, extra)) :
+    bound.map Prod.fst = pos.map Prod.fst ∧
+      bound.map Prod.snd ++ extra = args ++ List.replicate (pos.length - args.length) none ∧
+      (extra ≠ [] → pos.length ≤ args.length) := by
+  induction pos generalizing args bound extra with
+  | nil =>
+    simp only [bindPos, Option.some.injEq, Prod.mk.injEq] at h
+    rcases h with ⟨rfl, rfl⟩
+    simp
+  | cons p ps ih =>
+    cases args with
+    | cons a as =>
+      simp only [bindPos, Option.map_eq_some_iff] at h
+      rcases h with ⟨r, hr, hre⟩
+      simp only [Prod.mk.injEq] at hre
+      rcases hre with ⟨rfl, rfl⟩
+      have := ih as r.1 r.2 (by rw [hr])
+      refine ⟨by simp [this.1], ?_, ?_⟩
+      · simp only [List.map, List.cons_append, List.length_cons, Nat.add_sub_add_right]
+        rw [this.2.1]
+      · intro he; have := this.2.2 he; simp only [List.length_cons]; omega
+    | nil =>
+      simp only [bindPos] at h
+      cases hp2 : p.2 with
+      | pyNone =>
+        rw [hp2] at h
+        simp only [Option.map_eq_some_iff] at h
+        rcases h with ⟨r, hr, hre⟩
+        simp only [Prod.mk.injEq] at hre
+        rcases hre with ⟨rfl, rfl⟩
+        have := ih [] r.1 r.2 (by rw [hr])
+        refine ⟨by simp [this.1], ?_, ?_⟩
+        · have h2 := this.2.1
+          simp only [List.nil_append, List.length_nil, Nat.sub_zero] at h2 ⊢
+          simp only [List.map, List.cons_append, List.length_cons, List.replicate_succ]
+          rw [h2]
+        · intro he; have := this.2.2 he; simp at this
+          -- ps.length ≤ 0 → then bindPos gives extra = [] ; contradiction handled by omega on lengths
+          have h2 := this
+          subst h2
+          simp [bindPos] at hr
+          rcases hr with ⟨_, rfl⟩
+          exact absurd rfl he
+      | absent => rw [hp2] at h; simp at h
+      | sc s => rw [hp2] at h; simp at h
+      | list s => rw [hp2] at h; simp at h
+      | other s => rw [hp2] at h; simp at h
+
 end OV.C17
